@@ -230,16 +230,6 @@ def trompt (θ : Trompt R) (Xs : List (T3 R)) : T3 R :=
   let XP : T3 R := List.replicate B θ.xPrompt                                    -- x_prompt.repeat(B, 1, 1)
   stackLayers B (o.tromptLoop θ.dec (θ.convs.zip Xs) XP)
 
-def tromptLoopRow (dec : TromptDec R) : List (TromptConv R × Mat R) → Mat R → List (Vec R)
-  | [], _ => []
-  | (θ, x) :: rest, xp =>
-    let xp' := o.tromptSample θ x xp
-    o.tromptDecSample dec xp' :: tromptLoopRow dec rest xp'
-
-/-- one row of Trompt: `xs` = the row's encoder outputs, one per layer -/
-def tromptRow (θ : Trompt R) (xs : List (Mat R)) : Mat R :=
-  o.tromptLoopRow θ.dec (θ.convs.zip xs) θ.xPrompt
-
 /-! ### TabNet -/
 
 def gluLayerV (L : Linear R) (x : Vec R) : Vec R := o.gluV (o.linearV L x)
@@ -292,25 +282,6 @@ def tabnet (θ : TabNet R) (X : T3 R) : Mat R :=
   let prior := x.map fun v => v.map fun _ => o.one                               -- ones_like(x)
   let att := (o.featTrans θ.shared θ.dep0 x).map fun v => v.drop θ.splitFeat
   o.linearLast θ.lin (o.sumOuts (o.tabnetLoop θ.shared θ.splitFeat θ.gamma x θ.steps prior att))
-
-def tabnetLoopV (shared : Option (GLUBlock R)) (splitFeat : Nat) (gamma : R) (x : Vec R) :
-    List (AttnTrans R × Option (GLUBlock R)) → Vec R → Vec R → List (Vec R)
-  | [], _, _ => []
-  | (a, dep) :: rest, prior, att =>
-    let mask := o.attnTransV a att prior
-    let out := o.optGluV dep (o.optGluV shared (o.vmul mask x))
-    let prior' := List.zipWith (fun m p => o.mul (o.sub gamma m) p) mask prior
-    (out.take splitFeat).map o.relu :: tabnetLoopV shared splitFeat gamma x rest prior' (out.drop splitFeat)
-
-def sumOutsV : List (Vec R) → Vec R
-  | [] => []
-  | f :: fs => fs.foldl o.vadd (f.map fun t => o.add o.zero t)
-
-def tabnetRow (θ : TabNet R) (M : Mat R) : Vec R :=
-  let x := o.bnEvalV θ.bn M.flatten
-  let prior := x.map fun _ => o.one
-  let att := (o.optGluV θ.dep0 (o.optGluV θ.shared x)).drop θ.splitFeat
-  o.linearV θ.lin (o.sumOutsV (o.tabnetLoopV θ.shared θ.splitFeat θ.gamma x θ.steps prior att))
 
 /-! ### ExcelFormer -/
 
